@@ -38,7 +38,7 @@ vars == <<l, run, now, meta, eps, sendIdx, app, infl, sk, pairs, last, viol, cov
 
 RuleNames == {
     "C01.NoGarbage", "C01.SegStable", "C01.SegContiguous", "C01.ReadIsPrefix", "C01.ReadWithinWritten",
-    "C02.IdleWrite", "C02.IdleShutdown", "C02.NoStall", "C02.Silence", "C02.CompletesOk", "C02.ReaderWoken",
+    "C02.IdleWrite", "C02.IdleShutdown", "C02.NoStall", "C02.Silence", "C02.CompletesOk", "C02.ReaderWoken", "C02.InWindowTaken",
     "C03.FlushHonest", "C03.EofOnlyAfterFin", "C03.SuccessMeansDelivered", "C03.AbortSurfaces", "C03.NoSuccessAfterAbort", "C03.FinInSequence",
     "C04.AckExact", "C04.AckMonotone", "C04.SackExact", "C04.WindowHonest", "C04.WithinBuffer",
     "C04.ConsumeExact", "C04.OutOfOrderIsAhead", "C04.DuplicateIsOld", "C04.AlreadyPresentIsHeld",
@@ -144,11 +144,11 @@ TickRules(k, t) ==
           <<k, "C06.FastRetx", e.frDue > 0 /\ alive /\ ~e.txPending, FALSE, "">>,
           <<k, "C06.RtoFires", (SentUnacked(e) \/ FinUnacked(e)) /\ alive /\ e.tRtx >= 0 /\ ~e.txPending,
                                t <= e.tRtx + Eps, "">>,
-          <<k, "C02.IdleWrite", e.idleWr > 0 /\ alive, FALSE, "">>,
+          <<k, "C02.IdleWrite", e.idleWr > 0 /\ alive /\ ~e.txPending, FALSE, "">>,
           <<k, "C02.ReaderWoken", e.eofDue > 0 /\ e.readPend /\ ~e.rDropped, FALSE, "">>,
           \* C18 "small writes are coalesced into the next full segment or sent when the pipe drains"
-          <<k, "C18.NagleDrain", e.drainDue > 0 /\ alive, FALSE, "">>,
-          <<k, "C02.IdleShutdown", e.idleFin > 0 /\ alive, FALSE, "">>,
+          <<k, "C18.NagleDrain", e.drainDue > 0 /\ alive /\ ~e.txPending, FALSE, "">>,
+          <<k, "C02.IdleShutdown", e.idleFin > 0 /\ alive /\ ~e.txPending, FALSE, "">>,
           <<k, "C17.FinAnswered", e.finAnsDue > 0 /\ alive /\ ~e.txPending, FALSE, "">>,
           <<k, "C17.ResetAborts", e.resetAt > 0 /\ ~e.ended, FALSE, "">>,
           <<k, "C08.SlotFreed", e.slotDue > 0, FALSE, "">>,
@@ -444,6 +444,13 @@ Disp(r) ==
                     <<"C04.DuplicateIsOld", w = "duplicate", R_C04_DuplicateIsOld(e, s)>>,
                     <<"C04.AlreadyPresentIsHeld", w = "already_present", R_C04_AlreadyPresentIsHeld(e, s)>>,
                     <<"C04.WithinBuffer", w \in {"consumed", "out_of_order"}, R_C04_WithinBuffer(e1)>>,
+                    \* C04 "the advertised receive window never exceeds the free space actually left" / C02 "progress never waits
+                    \* for a retransmission": the next in-order packet, no larger than the window last advertised, with nothing
+                    \* held out of order, is not turned away
+                    <<"C04.WindowHonest", w = "unavailable" /\ s = Nx(e.rnxt, 1) /\ DOMAIN e.held = {} /\ e.txCount > 0
+                                          /\ plen > 0 /\ plen <= e.lastWnd, FALSE>>,
+                    <<"C02.InWindowTaken", w \in {"unavailable", "consumed"} /\ s = Nx(e.rnxt, 1) /\ DOMAIN e.held = {}
+                                           /\ e.txCount > 0 /\ plen > 0 /\ plen <= e.lastWnd, w # "unavailable">>,
                     <<"C17.PeerFinInOrder", w = "fin_accepted", R_C17_PeerFinInOrder(e, s)>>,
                     \* C17 "until the initiator's first packet arrives": while the endpoint waits for the packet that
                     \* acknowledges its SYN-ACK, a packet that does not is dropped as a whole - its payload is not taken in
@@ -647,6 +654,9 @@ Dying(r) ==
     /\ UNCHANGED <<run, now, meta, sendIdx, app, infl, sk, pairs, last>>
     /\ IF ~Live(k) THEN UNCHANGED eps /\ NoJudge
        ELSE /\ Judge(k, { <<"C10.NoBugError", TRUE, ~IsBug(r.result)>>,
+                          \* C17: a state machine that meets a packet it has no answer for (an internal "bug" error) did not
+                          \* follow the documented graph
+                          <<"C17.Transition", IsBug(r.result), FALSE>>,
                           \* (a connection that dies of an error other than a RESET may be in any state)
                           <<"C17.Transition", eps[k].trans.on /\ (r.result = "ok" \/ eps[k].trans.t = "reset"),
                                               ~eps[k].trans.on \/ r.state \in LocalClosure(Allowed(eps[k].trans.st, eps[k].trans))>> })
@@ -680,7 +690,10 @@ EndOf(k, result) ==
           <<"C06.CapReason", result = "max number of retransmissions reached",
                              \E s \in DOMAIN e.segs : e.segs[s].cnt >= e.cfg.max_retx + 1>> })
     /\ eps' = [eps EXCEPT ![k] = [e EXCEPT !.ended = TRUE, !.endedAt = now, !.result = result,
-                                           !.slotDue = IF result = "cancelled" THEN 0 ELSE l, !.resetAt = 0,
+                                           \* (a connection object that is let go without ever running - its accept call was
+                                           \*  abandoned after the dispatcher had matched it - owes its table entry back as well;
+                                           \*  when a whole socket is cancelled the table goes with it)
+                                           !.slotDue = IF result = "cancelled" /\ meta.cancelled THEN 0 ELSE l, !.resetAt = 0,
                                            !.ackImm = 0, !.ackDue = -1, !.frDue = 0,
                                            !.idleWr = 0, !.idleFin = 0, !.finAnsDue = 0]]
 
